@@ -211,6 +211,73 @@ mod driver {
         })
     }
 
+    /// C13 (engine level): DhtCoreEngine::add_node(x) from an arbitrary enforcer / geographic enforcer / table, then eviction or failure of x
+    pub fn admission(case: &Value) -> Value {
+        use crate::security::verif_kani_security::driver as sec;
+        let rt = tokio::runtime::Builder::new_current_thread().enable_all().build().unwrap();
+        rt.block_on(async {
+            let mode = if case.get("validator_ok").and_then(|v| v.as_bool()).unwrap_or(false) { CloseGroupEnforcementMode::LogOnly } else { CloseGroupEnforcementMode::Strict };
+            let mut engine = DhtCoreEngine::new_with_validation_mode(NodeId::from_bytes([0u8; 32]), mode).unwrap();
+            let mut t = table(case);
+            let cap = u(case, "bucket_cap") as usize;
+            for bk in t.buckets.iter_mut() {
+                bk.max_size = cap;
+            }
+            *engine.routing_table.write().await = t;
+            *engine.ip_diversity_enforcer.write().await = sec::build(case);
+            {
+                let mut g = engine.geographic_diversity_enforcer.write().await;
+                g.max_per_region = u(case, "G.max") as usize;
+                g.region_counts.clear();
+                let regions = [GeographicRegion::NorthAmerica, GeographicRegion::Europe, GeographicRegion::AsiaPacific, GeographicRegion::SouthAmerica,
+                               GeographicRegion::Africa, GeographicRegion::Oceania, GeographicRegion::Unknown];
+                for (i, r) in regions.iter().enumerate() {
+                    if case.get(&format!("G.regions@r{i}.present")).and_then(|v| v.as_bool()).unwrap_or(false) {
+                        g.region_counts.insert(*r, u(case, &format!("G.regions@r{i}.v0")) as usize);
+                    }
+                }
+            }
+            let x = match case["__params"]["xb"].as_u64() {
+                Some(j) => id_in_bucket(raw32(case, "x"), j as usize),
+                None => [0u8; 32],
+            };
+            let v6 = case["__params"]["v6"].as_bool().unwrap_or(true);
+            let mut ip6 = [0u8; 16];
+            for i in 0..16 {
+                ip6[i] = u(case, &format!("x.ip6.{i}")) as u8;
+            }
+            let mut ip4 = [0u8; 4];
+            for i in 0..4 {
+                ip4[i] = u(case, &format!("x.ip4.{i}")) as u8;
+            }
+            let ip: std::net::IpAddr = if v6 { std::net::IpAddr::V6(std::net::Ipv6Addr::from(ip6)) } else { std::net::IpAddr::V4(std::net::Ipv4Addr::from(ip4)) };
+            let address = match u(case, "x.addr_kind") {
+                0 => std::net::SocketAddr::new(ip, u(case, "x.port") as u16).to_string(),
+                1 => ip.to_string(),
+                _ => "addr999".to_string(),
+            };
+            let mut node = mk(x, 999);
+            node.address = address;
+            let xid = NodeId::from_bytes(x);
+            let mut out = serde_json::Map::new();
+            let ok = engine.add_node(node).await.is_ok();
+            out.insert("add_ok".into(), json!(ok));
+            sec::observe(&*engine.ip_diversity_enforcer.read().await, case, "add", &mut out);
+            let listed = |t: &KademliaRoutingTable| t.buckets.iter().any(|b| b.get_nodes().iter().any(|n| n.id == xid));
+            out.insert("listed_after_add".into(), json!(listed(&*engine.routing_table.read().await)));
+            if ok {
+                if case["__params"]["op"].as_str() == Some("evict") {
+                    let _ = engine.evict_node(&xid, EvictionReason::CloseGroupRejection).await;
+                } else {
+                    let _ = engine.handle_node_failure(xid.clone()).await;
+                }
+            }
+            sec::observe(&*engine.ip_diversity_enforcer.read().await, case, "after", &mut out);
+            out.insert("listed_after_op".into(), json!(listed(&*engine.routing_table.read().await)));
+            Value::Object(out)
+        })
+    }
+
     pub fn mutation(case: &Value) -> Value {
         let mut rt = table(case);
         let x = match case["__params"]["xb"].as_u64() {
@@ -247,6 +314,7 @@ fn verif_replay_entry() {
         "mutation" => driver::mutation(&case),
         "engine_ops" => driver::engine_ops(&case),
         "dispatch" => driver::dispatch(&case),
+        "admission" => driver::admission(&case),
         other => panic!("unknown driver {other}"),
     };
     println!("VERIF-OBS {}", obs);
